@@ -82,7 +82,9 @@ Step(s, e) ==
          IF ~(s.stage \in {"semantics", "balanced"}) THEN Fail("order:balance-out-of-order")
          ELSE IF Len(e.rows) # Len(s.rows) THEN Fail("balance-changed-kernel")
          ELSE IF \E i \in DOMAIN e.rows :
-                   Abs(Sum(e.rows[i]) - Sum(s.rows[i])) > Eps * s.nports
+                   \* up to the 0.01-cycle granularity of the balancing steps (C01 states the exact bound
+                   \* per instruction; here only gross loss or invention of cycles is rejected)
+                   Abs(Sum(e.rows[i]) - Sum(s.rows[i])) > Step01 * 6 + Eps * s.nports
               THEN Fail("balance-does-not-conserve-cycles")
          ELSE IF \E i \in DOMAIN e.rows : \E p \in DOMAIN e.rows[i] :
                    e.rows[i][p] < -(Step01 * 6 + Eps) THEN Fail("balance-negative-pressure")
